@@ -1698,6 +1698,14 @@ impl FunctionCompiler<'_> {
                 self.builder.switch_to_block(header_block);
                 // don't seal the header yet
 
+                // a `break`/`continue` that targets this loop unwinds defers only up to here,
+                // and not the defers of the blocks that contain the loop. the condition is
+                // part of the loop too (`while { if done { break; } true } { .. }`)
+                self.defer_stack.push(DeferFrame {
+                    id: self.world_bodies[self.loc.file()].block_to_scope_id(expr),
+                    defers: Vec::new(),
+                });
+
                 if let Some(condition) =
                     condition.and_then(|condition| self.compile_expr(condition))
                 {
@@ -1710,13 +1718,6 @@ impl FunctionCompiler<'_> {
 
                 self.builder.switch_to_block(body_block);
                 self.builder.seal_block(body_block);
-
-                // a `break`/`continue` that targets this loop unwinds defers only up to here,
-                // and not the defers of the blocks that contain the loop
-                self.defer_stack.push(DeferFrame {
-                    id: self.world_bodies[self.loc.file()].block_to_scope_id(expr),
-                    defers: Vec::new(),
-                });
 
                 self.compile_expr(body);
 
